@@ -77,7 +77,10 @@ def generate(tier, rng):
     nc = rng.choice([1, 2, 3, 4, 5, 6, 8])
     big = (i % 13 == 12)
     maxround = rng.choice([10 ** 6, 2 ** 31 - 2]) if big else rng.choice([4, 12, 60, 300, 5000])
-    yield {'kind': 'get', 'ids': _ids(nc, i % 3), 'n': rng.randrange(1, nc + 1),
+    ids_i = _ids(nc, i % 3)
+    if i % 7 == 3:
+      ids_i = [[]] + ids_i[1:]        # the empty id b'' is a valid client id
+    yield {'kind': 'get', 'ids': ids_i, 'n': rng.randrange(1, nc + 1), 'form': [0, 1, 2, 3, 4, 8, 5, 12][i % 8],
            'seed': rng.choice([0, 1, 2 ** 32 - 1, rng.randrange(2 ** 32), rng.randrange(100)]),
            'start': rng.choice([0, 0, 1, rng.randrange(0, maxround)]),
            'ops': _history(rng, kinds[i % len(kinds)], maxround), 'fd': ['mem', 'subset', 'mem', 'sqlite'][i % 4]}
@@ -98,6 +101,10 @@ def generate(tier, rng):
   for nc in (3, 6):
     for n in range(1, nc + 1):
       yield {'kind': 'get', 'ids': _ids(nc, 0), 'n': n, 'seed': 5, 'start': 2, 'ops': [['S'], ['S'], ['R', 2], ['S']]}
+  # get_pseudo_random_state called directly: the returned RandomState is RandomState(lehmer(seed, r))
+  for j in range(40 if tier == 'quick' else 200):
+    yield {'kind': 'prs', 'seed': rng.choice([0, 1, 2 ** 32 - 1, rng.randrange(2 ** 32)]),
+           'r': rng.choice([0, 1, 2, rng.randrange(100), rng.randrange(10 ** 6), 2 ** 31 - 2, rng.randrange(2 ** 31)])}
   # streaming sampler: every implementation of shuffled_clients x the edge seeds 0, 1, 2^32-1
   # (a seed of 0 must be a seed, not "unseeded") x a few shapes, then random ones
   edge = []
@@ -113,7 +120,7 @@ def generate(tier, rng):
     yield {'kind': 'stream', 'ids': _ids(nc, i % 3), 'n': rng.randrange(1, nc + 2), 'start': rng.choice([0, 1, 2, 3, 7]),
            'k': rng.randrange(1, 5), 'B': rng.choice([1, 2, 3, nc, nc + 3]),
            'seed': rng.choice([0, 0, 1, 2 ** 32 - 1, rng.randrange(2 ** 32), rng.randrange(2 ** 31)]),
-           'src': rng.choice(['fd', 'fd', 'fd', 'handmade']), 'fd': ['mem', 'subset', 'sqlite'][i % 3]}
+           'src': rng.choice(['fd', 'fd', 'handmade', 'iterlist', 'map', 'counted']), 'fd': ['mem', 'subset', 'sqlite'][i % 3]}
 
 
 # --------------------------------------------------------------------------
@@ -177,6 +184,11 @@ def _clients(out):
           for cid, ds, key in out]
 
 
+def _snapshot(fd):
+  """Caller-owned data: the id list and every client's rows, as plain python values."""
+  return [[_codes(cid), np.asarray(ds.raw_examples['x']).tolist()] for cid, ds in fd.clients()]
+
+
 def _perturb(k):
   """Moves numpy's process-global RNG to another state: a stream that (wrongly) draws from
   the global state instead of its own seeded RandomState then differs between creations."""
@@ -185,6 +197,8 @@ def _perturb(k):
 
 
 def run(case):
+  if case['kind'] == 'prs':
+    return _run(case, None, [])
   fd, ids, cleanup = _fd(case)
   saved = np.random.get_state()
   try:
@@ -198,10 +212,22 @@ def run(case):
 
 def _run(case, fd, ids):
   from fedjax.core import client_samplers as cs
-  n = case['n']
+  n = case.get('n')
   if case['kind'] == 'get':
+    import contextlib
+    import jax
     seed = case['seed']
-    sampler = cs.UniformGetClientSampler(fd, n, seed, start_round_num=case['start'])
+    snap = _snapshot(fd)
+    form = case.get('form', 0)
+    # argument delivery: positional / keyword construction, python ints / numpy scalars
+    n_arg, seed_arg = (np.int64(n), np.int64(seed)) if form & 2 else (n, seed)
+    if form & 1:
+      sampler = cs.UniformGetClientSampler(fd=fd, num_clients=n_arg, seed=seed_arg, start_round_num=case['start'])
+    else:
+      sampler = cs.UniformGetClientSampler(fd, n_arg, seed_arg, case['start'])
+    # a second sampler over the SAME dataset object, other cohort size / seed, sampled in between
+    other = cs.UniformGetClientSampler(fd, 1 + (n % len(ids)), (seed + 1) % (2 ** 32), 3) if form & 4 else None
+    ctx = jax.disable_jit if form & 8 else contextlib.nullcontext
     outs, rounds, restart_same, kept = [], [], [], []
     r = case['start']
     for o in case['ops']:
@@ -210,7 +236,11 @@ def _run(case, fd, ids):
         r = o[1]
         continue
       try:
-        raw = sampler.sample()
+        if other is not None:
+          other.sample()
+          other.set_round_num(r + 7)
+        with ctx():
+          raw = sampler.sample()
         got = _clients(raw)
         kept.append((len(outs), raw))
       except Exception as ex:  # pylint: disable=broad-except
@@ -244,13 +274,34 @@ def _run(case, fd, ids):
     ktab, inj = _key_table(set(rounds) | {x + 1 for x in rounds} | {max(0, x - 1) for x in rounds} | {0, case['seed'] % (2 ** 31)}, n)
     paths = [[list(ktab.get(tuple(c[2]), (-1, -1))) for c in o] if isinstance(o, list) else None for o in outs]
     return {'outs': outs, 'rounds': rounds, 'restart_same': restart_same, 'start_val': start_val, 'table': table,
-            'numpy_contract': bool(contract), 'key_paths': paths, 'key_table_injective': inj, 'changed_later': stable}
+            'numpy_contract': bool(contract), 'key_paths': paths, 'key_table_injective': inj, 'changed_later': stable,
+            'fd_unchanged': _snapshot(fd) == snap}
+  if case['kind'] == 'prs':
+    start_val = int(np.random.RandomState(case['seed']).randint(1, M31 - 1))
+    cand = pow(16807, case['r'], M31) * start_val % M31
+    st = cs.get_pseudo_random_state(case['seed'], case['r']).get_state()
+    ref = np.random.RandomState(cand).get_state()
+    same = st[0] == ref[0] and np.array_equal(st[1], ref[1]) and st[2:] == ref[2:]
+    again = cs.get_pseudo_random_state(case['seed'], case['r']).randint(1 << 30, size=4).tolist()
+    return {'outs': [[1]], 'rs_seed': cand if same else -1, 'start_val': start_val, 'key_table_injective': True,
+            'draws': again, 'ref_draws': np.random.RandomState(cand).randint(1 << 30, size=4).tolist()}
   # ---- streaming sampler
   start, k = case['start'], case['k']
+  snap = _snapshot(fd)
+  pulled = [0]
+
+  def counted(it):
+    for x in it:
+      pulled[0] += 1
+      yield x
 
   def stream():
     if case['src'] == 'fd':
       return fd.shuffled_clients(case['B'], case['seed'])
+    if case['src'] in ('iterlist', 'map', 'counted'):
+      # a finite, exactly long enough prefix of the seeded stream, delivered as a one-shot iterator
+      pre = list(itertools.islice(fd.shuffled_clients(case['B'], case['seed']), (start + k) * n))
+      return {'iterlist': lambda: iter(pre), 'map': lambda: map(lambda x: x, pre), 'counted': lambda: counted(pre)}[case['src']]()
     rs = np.random.RandomState(case['seed'])   # a hand-made infinite stream: repeated seeded permutations
 
     def gen():
@@ -277,6 +328,8 @@ def _run(case, fd, ids):
   ktab, inj = _key_table(set(range(0, start + k + 2)), n)
   paths = [[list(ktab.get(tuple(c[2]), (-1, -1))) for c in o] for o in outs_a]
   return {'outs': outs_a, 'ref': outs_b, 'err': err, 'stream': prefix, 'stream_same': prefix == prefix2,
+          'fd_unchanged': _snapshot(fd) == snap,
+          'pulled': pulled[0] if case['src'] == 'counted' else None, 'expect_pulled': 4 * (start + k) * n,   # four consumers, each exactly (start + k) * n items
           'key_paths': paths, 'key_table_injective': inj}
 
 
@@ -316,9 +369,18 @@ def _keys_across(outs, rounds, tag):
 
 
 def oracle(case, obs):
+  if case['kind'] == 'prs':
+    v = []
+    if obs['rs_seed'] < 0 or obs['draws'] != obs['ref_draws']:
+      v.append(('prs-not-lehmer', 'get_pseudo_random_state(seed, r) is not RandomState(16807^r * start mod (2^31-1))'))
+    return v
   ids = sorted(tuple(i) for i in case['ids'])
   n = case['n']
   v = []
+  if not obs.get('fd_unchanged', True):
+    v.append(('fd-changed', 'sampling changed the federated dataset (ids or rows)'))
+  if obs.get('pulled') is not None and obs['pulled'] != obs['expect_pulled']:
+    v.append(('stream-consumption', f'{obs["pulled"]} items pulled from the client iterators, {obs["expect_pulled"]} expected'))
   if not obs['key_table_injective']:
     v.append(('threefry-collision', 'two distinct split paths gave the same key data'))
   if case['kind'] == 'get':
@@ -366,6 +428,8 @@ def _pair(p):
 
 
 def encode(case, obs):
+  if case['kind'] == 'prs':
+    return f'(CPrs {case["seed"]}%Z {obs["start_val"]}%Z {case["r"]}%Z, OPrs {fw.zlit(obs["rs_seed"])}%Z)'
   ids = sorted(tuple(i) for i in case['ids'])
   n = case['n']
   if case['kind'] == 'get':
@@ -398,8 +462,11 @@ def nontrivial(case, obs):
 
 
 def describe(case, obs):
+  if case['kind'] == 'prs':
+    return {'kind': 'prs', 'round': 'zero' if case['r'] == 0 else 'small' if case['r'] < 100 else 'big'}
   d = {'kind': case['kind'], 'fd': case.get('fd', 'mem'), 'idtype': case.get('idtype', 'bytes'), 'clients': len(case['ids']), 'cohort': 'all' if case['n'] >= len(case['ids']) else 'one' if case['n'] == 1 else 'some',
        'trailing_zero_ids': sum(1 for i in case['ids'] if i and i[-1] == 0) > 0}
+  d['form'] = case.get('form', 0)
   if case['kind'] == 'get':
     rs = obs['rounds']
     d['samples'] = min(len(rs), 8)
@@ -414,6 +481,14 @@ def describe(case, obs):
 
 
 def shrink(case):
+  if case['kind'] == 'prs':
+    for k in ('seed', 'r'):
+      for c in sorted({0, case[k] // 2, case[k] - 1}):
+        if 0 <= c < case[k]:
+          yield {**case, k: c}
+    return
+  if case.get('form'):
+    yield {**case, 'form': 0}
   if case['kind'] == 'get':
     ops = case['ops']
     for j in range(len(ops)):
@@ -422,7 +497,7 @@ def shrink(case):
       if o[0] == 'R' and o[1] > 0:
         for r in sorted({0, o[1] // 2, o[1] - 1}):
           yield {**case, 'ops': ops[:j] + [['R', r]] + ops[j + 1:]}
-  if len(case['ids']) > max(1, case['n']):
+  if len(case['ids']) > max(1, case['n']) and not (case['kind'] == 'stream' and case['n'] > len(case['ids']) - 1):
     for j in range(len(case['ids'])):
       yield {**case, 'ids': case['ids'][:j] + case['ids'][j + 1:]}
   for k, lo in (('n', 1), ('start', 0), ('k', 1), ('B', 1), ('seed', 0)):
